@@ -356,3 +356,24 @@ def selftest(ctx: Ctx) -> int:
     selftest_expect_reject(ctx, "TraceBind", "TraceBind.cfg", good, [b1, b2, b3, b4], "c15")
     print("selftest C15 ok")
     return 0
+
+
+def replay(ctx: Ctx, rec: dict) -> int:
+    global _LOOP
+    _LOOP = asyncio.new_event_loop()
+    asyncio.set_event_loop(_LOOP)
+    case = rec["case"]
+    dc = refdc.DC()
+    dc.add_root_key(RKID, refdc.RootKeyInfo(ROOT, "SHA256", "DH"))
+    ks = dc.keyset(RKID, sdref.target_sd(SID), 361)
+    blob = blobref.make_blob("SHA256", ks.l2(7, 9), RKID, 361, 7, 9, SID, b"handshake-payload", random.Random(3).randbytes)
+    obs = execute(case["prov"], case["script"], case.get("fl", "sync"), 49664 if case["prov"]["auth"] else 135, blob, dc)
+    row = {"id": 0, "prov": case["prov"], "script": case["script"], **{k: obs[k] for k in ("sent", "delivered", "steps", "wrapSign", "end")}}
+    bad, _ = validate(ctx, "TraceBind", "TraceBind.cfg", [row], what="replay")
+    print(row)
+    if bad:
+        print("VIOLATION property=C15 replay=-")
+        print("  clause:", ",".join(bad[0]))
+        return 1
+    print("[C15] replayed handshake accepted on the current tree")
+    return 0
